@@ -1,8 +1,12 @@
-//! C50 (part i) — AutoNAT v1 server: `filter_valid_addrs(peer, demanded, observed)` only yields
-//! addresses on the requester's observed IP, without relay hops, ending with the requester's peer id.
+//! C50 — AutoNAT v1 server.
 //!
-//! The world-level half of C50 (at most one dial-back per peer, per-peer / global throttling) is
-//! NOT covered here.
+//! (i) pure: `filter_valid_addrs(peer, demanded, observed)` only yields addresses on the requester's
+//! observed IP, without relay hops, ending with the requester's peer id.
+//!
+//! (ii) behaviour level (`server-world`, second half of this file): the real
+//! `libp2p_autonat::v1::Behaviour` inside a real `Swarm` over the simulated transport; AutoNAT
+//! clients are played by hand on raw streams. Observed: every `ToSwarm::Dial` the behaviour emits
+//! (through a transparent tap behaviour) and every address the server's transport is asked to dial.
 use libp2p_autonat::v1::verif::filter_valid_addrs;
 use multiaddr::{Multiaddr, Protocol};
 use proptest::prelude::*;
@@ -136,7 +140,6 @@ fn case() -> impl Strategy<Value = Case> {
 /// The pure half of C50 (kept separately callable so that a world-level half can be added next to it).
 pub fn run_pure_part(ctx: &mut Ctx) {
     ctx.assume("'the IP it observed for the requester' is the first IP component of the observed address (observed addresses of direct connections have exactly one)");
-    ctx.assume("C50 world-level half (one dial-back per peer, per-peer and global throttling) is NOT covered by this check");
     ctx.check(
         "filter-valid-addrs",
         "requester from 3 peers, observed = ip|dns|memory host + transport suffix, 0..6 demanded addresses (dial-shaped, host + 0..4 tail components incl. further IPs / p2p of 3 peers / p2p-circuit / dns, or free-form sequences; first address duplicated when >= 3); every output address: all IP components == observed IP, no /p2p-circuit, last component /p2p/<requester>, pairwise distinct; non-trivial = output non-empty and some demanded IP differs from the observed one",
@@ -148,4 +151,8 @@ pub fn run_pure_part(ctx: &mut Ctx) {
 
 pub fn run(ctx: &mut Ctx) {
     run_pure_part(ctx);
+    world::run_world_part(ctx);
 }
+
+#[path = "c50_world.rs"]
+mod world;
